@@ -734,3 +734,46 @@ func c17empty(c *core.Ctx) {
 	}
 	c.Check(flag != "" && refuses, R, "doCompile:array-required", c.P.Pos(d.Decl.Pos()), "doCompile returns ErrEnumArrayExpected when no array was found", "a text without any lexeme (empty, blank) is accepted as an enum rule with no values")
 }
+
+// eofSiblingRule: the enum-rule scanner closes at end of input only what the schema scanner closes.
+func eofSiblingRule(R string) RuleFunc {
+	return func(c *core.Ctx) {
+		c.Rule(R, "sibling cross-check of the end-of-input handlers: every lexeme type the enum-rule scanner (processTail) closes silently at the end of the input is also closed at the end of the input by the schema scanner (Next) - literals and inline `//` annotations end with the text, a multi-line `/*` annotation does not. A list that the rule file accepts (`[1] /* tail`) must not be refused when it is written inline")
+		c.Floor(R, 1)
+		closers := func(fn string) map[string]bool {
+			d := c.P.FindDecl(fn)
+			out := map[string]bool{}
+			if d == nil {
+				c.Unresolved(R, fn)
+				return nil
+			}
+			ast.Inspect(d.Decl.Body, func(nd ast.Node) bool {
+				sw, ok := nd.(*ast.SwitchStmt)
+				if !ok || sw.Tag == nil || !strings.Contains(core.ExprStr(sw.Tag), "stack.Peek().Type()") {
+					return true
+				}
+				for _, cl := range sw.Body.List {
+					cc := cl.(*ast.CaseClause)
+					for _, e := range cc.List {
+						out[strings.TrimPrefix(core.ExprStr(e), "lexeme.")] = true
+					}
+				}
+				return false
+			})
+			return out
+		}
+		en := closers("(*rules/enum.scanner).processTail")
+		sc := closers("(*notations/jschema/scanner.Scanner).Next")
+		if en == nil || sc == nil {
+			return
+		}
+		var extra []string
+		for k := range en {
+			if !sc[k] {
+				extra = append(extra, k)
+			}
+		}
+		sortStrings(extra)
+		c.Check(len(extra) == 0 && len(en) > 0, R, "processTail:openers", "-", core.F("openers closed at end of input by the enum scanner (%d) are a subset of the schema scanner's (%d)", len(en), len(sc)), "the enum scanner silently closes "+strings.Join(extra, ", ")+" at the end of the input, the schema scanner does not: an unterminated construct is accepted in a rule file and refused inline")
+	}
+}
